@@ -43,7 +43,9 @@ type polOut struct {
 	AuthAdded bool   `json:"authAdded"`
 }
 
-func pemBlock(typ string, b []byte) []byte { return pem.EncodeToMemory(&pem.Block{Type: typ, Bytes: b}) }
+func pemBlock(typ string, b []byte) []byte {
+	return pem.EncodeToMemory(&pem.Block{Type: typ, Bytes: b})
+}
 
 func sevBase(r polRow) *cpb.Policy {
 	p := &cpb.Policy{MinimumVersion: "0.0", MinimumBuild: 3, MinimumLaunchTcb: 5, ReportData: bytes.Repeat([]byte{7}, 64), HostData: bytes.Repeat([]byte{9}, 32), RequireAuthorKey: false, Product: nil}
